@@ -1,4 +1,5 @@
 import Cello.IterExpr
+import Cello.IterExprSrc
 import Driver.Common
 /- driver for engine `iter` (C11).
 
@@ -8,6 +9,8 @@ import Driver.Common
                  O f=[items] fe=<term|ub|hang|fuel> b=[items] be=<…> len=<n|-> get=[values|!] gx=[get(-1) get(-len) get(-len-1) get(len)]
                  or   O construct=<Exception>
              `S <n> <a> <b> <c>`  Slice_Arg / slice_stack only: prints  O range=<start>,<stop>,<step> len=<Range_Len>
+             (W / V / S: followed by `O extracted-code-differs …` when the model built from the terms extracted from the
+              sources — CelloGen/Iter.lean, `denoteSrc` — observes something else than the hand model; never on the unchanged tree)
              `G <i> <k> <expr>`   foreach whose body calls get(obj, k) right after item number i (from 0):  O g=[items] ge=<end>
              `Z <k> <expr>`       zip(x, …, x) with the ONE object x = <expr> k times (k ≥ 1): as W, without get
              `M <k> <expr>`       mem(obj, $I(k)) for a Range, a Slice, a Filter or a Map whose elements are Ints:  O mem=<1|0|ub|hang|fuel>
@@ -181,6 +184,14 @@ def reportI (r : Except String (Iterable Val)) (withGet : Bool := true) : String
 
 def report (e : Expr) : String := reportI (denote e)
 
+/-- the same observation through the terms EXTRACTED from the sources (CelloGen/Iter.lean: Slice_Arg, Filter_Iter_*,
+    Table_Iter_Last / _Prev); printed as an extra line only when it differs from the hand model's -/
+def reportSrc (e : Expr) : Option String :=
+  if !e.usesExtracted then none else
+  let a := reportI (denote e)
+  let b := reportI (denoteSrc e)
+  if a = b then none else some ("O extracted-code-differs " ++ (b.drop 2).toString)
+
 /-- `G i k e`: foreach over `e` whose body calls `get(obj, k)` right after item number `i` -/
 def reportG (i : Nat) (k : Int) (e : Expr) : String :=
   match denote e with
@@ -259,7 +270,11 @@ def main (args : List String) : IO Unit := do
     if Driver.isSkippable l then continue
     if l.startsWith "W " || l.startsWith "V " then
       match IterDrv.parseExpr (IterDrv.tokenize (l.drop 2).toString) with
-      | some (e, []) => IO.println (IterDrv.report e)
+      | some (e, []) =>
+        IO.println (IterDrv.report e)
+        match IterDrv.reportSrc e with
+        | some x => IO.println x
+        | none => pure ()
       | _ => IO.println "O bad-op"
     else if l.startsWith "G " then
       match IterDrv.tokenize (l.drop 2).toString with
@@ -298,6 +313,11 @@ def main (args : List String) : IO Unit := do
           match sliceStack n as with
           | some (a, b, c) => IO.println s!"O range={a},{b},{c} len={rangeLen a b c}"
           | none => IO.println "O construct=FormatError"
+          -- Slice_Arg as EXTRACTED from src/Iter.c on the same arguments
+          if sliceStackSrc n as != sliceStack n as then
+            match sliceStackSrc n as with
+            | some (a, b, c) => IO.println s!"O extracted-code-differs range={a},{b},{c}"
+            | none => IO.println "O extracted-code-differs construct=FormatError"
         | _, _ => IO.println "O bad-op"
       | _ => IO.println "O bad-op"
     else IO.println "O bad-op"
